@@ -376,7 +376,7 @@ def structural_diff(snap, lpo):
         only_m = [r for r in mr if not any(rows_match([r], [x]) for x in ir)]
         return {"rows only in implementation": [str(r)[:300] for r in only_i[:3]], "rows only in model": [str(r)[:300] for r in only_m[:3]],
                 "n_impl": len(ir), "n_model": len(mr)}
-    if len(io) != len(mo) or any(a[0] != b[0] or not feq(a[1], b[1]) for a, b in zip(sorted(io), sorted(mo))):
+    if len(io) != len(mo) or any(a[0] != b[0] or not feq(a[1], b[1]) for a, b in zip(sorted(io, key=repr), sorted(mo, key=repr))):
         return {"objective implementation": str(io)[:400], "objective model": str(mo)[:400]}
     if not feq(ic, mc):
         return "objective constant"
